@@ -8,6 +8,7 @@
 #include "iwjson.h"
 #include "iwutils.h"
 #include "iwxstr.h"
+#include "iwre.h"
 #include <errno.h>
 #include <unistd.h>
 #include <signal.h>
@@ -64,5 +65,10 @@ int main(void) {
   ZB("fact_json_rejects_rootless", rc != 0);
   iwpool_destroy(pool);
   ZB("fact_replace_skips_empty_key", replace_empty_key_returns());
+  // is an OPTIONAL anchored group still searched for at later offsets: (^a)?b must find the b of "xb"
+  struct iwre *re = iwre_create("(^a)?b");
+  const char *mp[4] = { 0 };
+  ZB("fact_re_anchor_needs_min", re && iwre_match(re, "xb", mp, 4) > 0);
+  if (re) iwre_destroy(re);
   return 0;
 }
